@@ -11,10 +11,17 @@ What is modelled, and from where:
 * `decVarint`  — `protowire.ConsumeVarint`: at most 10 bytes, the 10th byte at most 1, non-minimal
   encodings accepted.
 * `decField` / `parse` — the wire scan of `proto.Unmarshal` (google.golang.org/protobuf, table-driven
-  decoder): any field order, field numbers 1 … 2^29-1, wire types varint / fixed64 / len / fixed32;
-  group wire types (3, 4) and the invalid types 6, 7 are rejected (groups inside a consensus-critical
-  message end in a rejection either way: the pre-flight scan refuses them at top level, and unknown
-  fields are refused in nested messages).
+  decoder `impl.unmarshalPointerEager`): any field order, field numbers 1 … 2^29-1, wire types
+  varint / fixed64 / len / fixed32. A START GROUP tag (wire type 3), whatever its field number, opens
+  a group that `protowire.ConsumeFieldValue` skips (`skipGroup`): tags inside a group may carry field
+  numbers up to 2^31-1, values are skipped by wire type, groups nest, the END GROUP tag must carry
+  the opening number; a well-formed group is retained as an UNKNOWN field (`WireVal.group`, so the
+  critical-message check reports "unknown fields"), a malformed one is a decode error. A stray END
+  GROUP (wire type 4) at message level and the wire types 6, 7 are decode errors. Not modelled: the
+  recursion limit of 10000 nested groups / messages (unreachable below 64 MB only in theory: 20 kB
+  of start-group tags reach it; the drivers stay far below).
+  The pre-flight scan still refuses wire types 3 and 4 at the top level of a critical message, so
+  groups only get through inside nested sub-messages (`signature`, `msg`).
 * `preflight` — `lib.preflightProtoBytes` (`lib/util.go`), statement by statement.
 * `decodeTx` — `lib.Unmarshal(bytes, *Transaction)`: size cap, pre-flight, decode with
   last-occurrence-wins for scalars, *merge* for repeated occurrences of a sub-message (`msg`,
@@ -61,6 +68,7 @@ inductive WireVal
   | i64 (b : Bytes)
   | len (b : Bytes)
   | i32 (b : Bytes)
+  | group (b : Bytes)   -- a skipped group: the raw bytes after the start tag, end tag included
   deriving DecidableEq, Repr
 
 structure Field where
@@ -72,6 +80,33 @@ structure Field where
 def maxFieldNum : Nat := 2^29 - 1
 /-- what `protowire.ConsumeTag` accepts (`DecodeTag`: up to `math.MaxInt32`) -/
 def maxTagNum : Nat := 2^31 - 1
+
+/-- `protowire.ConsumeFieldValue(num, StartGroupType, b)`: skip to the END GROUP tag that closes
+group `num`; the remaining bytes, or `none` for an error (bad tag, number above 2^31-1, value that
+does not fit, END GROUP with another number, reserved wire type, input exhausted). One unit of fuel
+per tag; `b.length + 1` always suffices. -/
+def skipGroup : Nat → Nat → Bytes → Option Bytes
+  | 0, _, _ => none
+  | k+1, num, b =>
+    match decVarint b with                     -- protowire.ConsumeTag
+    | none => none
+    | some (tag, r) =>
+      let n2 := tag / 8
+      if n2 < 1 ∨ maxTagNum < n2 then none
+      else match tag % 8 with
+        | 4 => if n2 == num then some r else none
+        | 0 => match decVarint r with
+          | some (_, r') => skipGroup k num r'
+          | none => none
+        | 1 => if r.length < 8 then none else skipGroup k num (r.drop 8)
+        | 5 => if r.length < 4 then none else skipGroup k num (r.drop 4)
+        | 2 => match decVarint r with
+          | some (l, r') => if r'.length < l then none else skipGroup k num (r'.drop l)
+          | none => none
+        | 3 => match skipGroup k n2 r with
+          | some r' => skipGroup k num r'
+          | none => none
+        | _ => none
 
 /-- one field off the front of `b` -/
 def decField (b : Bytes) : Option (Field × Bytes) :=
@@ -89,7 +124,10 @@ def decField (b : Bytes) : Option (Field × Bytes) :=
         | some (l, r') => if r'.length < l then none else some (⟨num, .len (r'.take l)⟩, r'.drop l)
         | none => none
       | 5 => if r.length < 4 then none else some (⟨num, .i32 (r.take 4)⟩, r.drop 4)
-      | _ => none
+      | 3 => match skipGroup (r.length + 1) num r with
+        | some r' => some (⟨num, .group (r.take (r.length - r'.length))⟩, r')
+        | none => none
+      | _ => none                                -- stray END GROUP (4), reserved (6, 7)
 
 def parseAux : Nat → Bytes → Option (List Field)
   | _, [] => some []
@@ -111,6 +149,7 @@ def encField (f : Field) : Bytes :=
   | .i64 b => encTag f.num 1 ++ b
   | .len b => encTag f.num 2 ++ encVarint b.length ++ b
   | .i32 b => encTag f.num 5 ++ b
+  | .group b => encTag f.num 3 ++ b
 
 def encFields (fs : List Field) : Bytes := fs.flatMap encField
 
